@@ -197,8 +197,10 @@ def section_xml(sec, resolve, root_tag):
     L = []
     if sec['implements']:
         L.append('<Implements>')
-        for i in sec['implements']:
-            L.append('  <Interface>\t%s </Interface>' % i)
+        for n_i, i in enumerate(sec['implements']):
+            # the tag of an entry carries no meaning (every child of <Implements> names an interface)
+            tag = ('Interface', 'Interface', 'interface', 'Item')[(len(i) + n_i + len(sec['name'])) % 4] if sec.get('order') else 'Interface'
+            L.append('  <%s>\t%s </%s>' % (tag, i, tag))
         L.append('</Implements>')
     blocks.append(L); L = []
     if sec.get('temp'):
